@@ -24,7 +24,7 @@ TEXT = {
     "C15": ("Sink/Stream programs refine the same Spec steps as the plain calls; bounded own steps of poll/start_send; tie: fut family + sequential differential", "refinement + event correspondence"),
     "C16": ("epoch invariant: no thread holds a pointer to a freed object, nothing freed twice; tie: mem family, every event address checked against the allocation ledger (freed blocks quarantined)", "invariant proof + allocation-ledger monitor"),
     "C17": ("allocation ledger of the model vs counting allocator on real histories (teardown, churn plateaus)", "ledger proof + allocation counting"),
-    "C18": ("strictly decreasing natural-number measure on every own step of a try operation, for arbitrary states of the other threads; tie: solo runs from frozen concurrent states, step counts compared with the measure", "termination measure proof + solo-run correspondence"),
+    "C18": ("strictly decreasing natural-number measure on every own step of a try operation, for arbitrary states of the other threads; proved for every state (reachable or not) of the other threads; tie: event-level correspondence incl. solo / freeze-then-solo schedules of the real code, whose step bound is the monitor", "termination measure proof + solo-run correspondence"),
     "C19": ("auto-trait table generated from the sources, resolver in Lean, theorem by decide over the whole finite table; tie: probe crate evaluates Send/Sync with rustc for the same matrix", "decide over the generated finite table + rustc probe"),
 }
 
